@@ -9,4 +9,12 @@ void *realloc(void *ptr, size_t size) {
     __CPROVER_assume(n != NULL);
     return n;
 }
+/* calloc: CBMC's library model may return NULL even with --no-malloc-may-fail; gdstk never checks the
+ * result of allocate_clear (allocation failure is outside every property), so: a fresh zeroed block */
+void *calloc(size_t n, size_t size) {
+    void *p = malloc(n * size);
+    __CPROVER_assume(p != NULL);
+    __CPROVER_array_set((char *)p, 0);
+    return p;
+}
 #endif
